@@ -50,6 +50,47 @@ def make_ref_class(P):
             self.counter += n
             return self.counter
 
+        # remote methods with names a container-like or proxy-like object commonly has (and a batch proxy might one day grow itself):
+        # in a batch they are calls on the REMOTE object like any other
+        def clear(self):
+            self.calls += 1
+            n = len(self.items)
+            del self.items[:]
+            return n
+
+        def close(self):
+            self.calls += 1
+            self.table["closed"] = self.table.get("closed", 0) + 1
+            return "closed"
+
+        def copy(self):
+            self.calls += 1
+            import copy as _copy
+            return _copy.deepcopy(self.items)        # (a snapshot: results that share mutable state with the object are the alias probe's business)
+
+        def update(self, **kw):
+            self.calls += 1
+            self.table.update(kw)
+            return sorted(self.table)
+
+        def submit(self, x=None):
+            self.calls += 1
+            self.items.append(["submitted", x])
+            return len(self.items)
+
+        def reset(self):
+            self.calls += 1
+            self.counter = 0
+            return 0
+
+        def send(self, x):
+            self.calls += 1
+            self.items.append(["sent", x])
+
+        def results(self):
+            self.calls += 1
+            return self.counter
+
         def append(self, x, twice=False):
             self.calls += 1
             self.items.append(x)
@@ -135,8 +176,10 @@ def gen_calls(r, n, fail_at):
             calls.append([("fail_struct", (r.randrange(7),), {}), ("fail_struct", (r.randrange(7),), {}), ("fail_struct", (r.randrange(7),), {}), ("fail_app", ("app%d" % i,), {}), ("fail_value", ("boom%d" % i,), {}), ("fail_pyro", ("naming%d" % i,), {}), ("get", ("missing%d" % i,), {}), ("inc", ("notanumber",), {}),
                           ("hidden", (1,), {}), ("_priv", (), {}), ("doesnotexist", (1, 2), {}), ("append", (), {})][k])
             continue
-        k = r.randrange(9)
-        if k == 7:
+        k = r.randrange(11)
+        if k >= 9:
+            calls.append(r.choice([("clear", (), {}), ("close", (), {}), ("copy", (), {}), ("update", (), {"a": i}), ("submit", (i,), {}), ("reset", (), {}), ("send", ("s%d" % i,), {}), ("results", (), {})]))
+        elif k == 7:
             calls.append(("append", (shared,), {}))
         elif k == 8:
             calls.append(("amend", (r.randrange(0, 4), "m%d" % i), {}))
